@@ -22,7 +22,7 @@ PROP = {
                   "EulerRot variants is compared with the product of the three elementary rotations in the order the variant name spells (intrinsic left to right, Ex reversed) for Quat/Mat3/Mat3A/Mat4 and f64 forms; "
                   "to_euler is checked by rebuilding the rotation from the returned angles with the reference (and with glam's own from_euler) within k*u*(1+1/d), d = distance of the middle angle from the singularity, "
                   "including the gimbal branch (k*u + 4d below the documented 16*EPSILON threshold); to_axis_angle / to_scaled_axis are checked by rebuilding +-q, axis unit, angle in [0, 2pi], fallback (X, 0) accepted only "
-                  "while theta^2 <= 8u. SSE2, scalar-math, libm and nightly core-simd builds. Exploration, not proof.",
+                  "while theta^2 <= 8u. SSE2, scalar-math, libm and nightly core-simd builds. The same sub-checks also run against the SSE2 build with glam-assert compiled in: the generated inputs satisfy the documented preconditions, so a panic there is a failure. Exploration, not proof.",
     "level_note": "Trusted: the double-double reference in engine/c09/src/refm.rs (self-tested at start-up against std sin/cos, addition theorems, Rodrigues = elementary = quaternion routes), "
                   "to_cols_array/to_array for reading results, rustc, proptest. NEON/wasm32 backends cannot be built here.",
     "design_ref": "DESIGN.md section 5 C09",
